@@ -307,3 +307,48 @@ def jsonish(x):
     if isinstance(x, (list, tuple)):
         return [jsonish(v) for v in x]
     return x
+
+
+# ---------------------------------------------------------------- flow analysis (private helpers of _checks)
+def run_flow(units, edges, cap, outs, ins):
+    """the bus-width analysis of processor_utils._checks._chk_cap_flow, step by step through its own helper
+    functions, on a graph built like the loader's; returns the analysis graph after node splitting and
+    capacity distribution, the sink, the flow verdict per input port and the verdict of _chk_cap_flow"""
+    import networkx
+    ck = M("processor_utils._checks")
+    cau = M("processor_utils.cap_anal_utils")
+    un = M("processor_utils.units")
+    exc = M("processor_utils.exception")
+
+    def build():
+        g = networkx.DiGraph()
+        for n, w, caps in units:
+            g.add_node(n, **{un.UNIT_WIDTH_KEY: w, un.UNIT_CAPS_KEY: list(caps)})
+        g.add_edges_from(edges)
+        return g
+    anal = ck._get_anal_graph(ck._make_cap_graph(build(), cap))
+    amap = {attrs[ck._OLD_NODE_KEY]: unit for unit, attrs in anal.nodes.items()}
+    unified = ck._aug_out_ports(anal, [amap[p] for p in outs])
+    unified = cau.split_nodes(anal)[unified]
+    ck._dist_edge_caps(anal)
+    nodes = [[str(n), int(anal.nodes[n][un.UNIT_WIDTH_KEY]), [str(s) for s in anal.successors(n)]] for n in anal]
+    caps = sorted([str(u), str(v), int(d["capacity"])] for u, v, d in anal.edges(data=True) if "capacity" in d)
+    flows = []
+    for p in ins:
+        try:
+            v = networkx.maximum_flow_value(anal, amap[p], unified)
+            r = "positive" if v else "zero"
+        except networkx.NetworkXUnbounded:
+            r = "unbounded"
+        except networkx.NetworkXError:
+            r = "error"
+        flows.append([p, Sym(r)])
+    try:
+        ck._chk_cap_flow(ck._get_anal_graph(ck._make_cap_graph(build(), cap)), exc.ComponentInfo(cap, "Capability " + cap),
+                         list(ins), list(outs), lambda port: "port " + port)
+        verdict = Sym("ok")
+    except exc.BlockedCapError as e:
+        verdict = [Sym("blocked"), e.capability, e.port]
+    except Exception as e:  # noqa: BLE001
+        verdict = [Sym("crash"), type(e).__name__]
+    return [nodes, caps, str(unified), flows, verdict]
